@@ -1294,16 +1294,36 @@ class Interp:
         return d
 
     def ex_JoinedStr(self, e, frame):
-        parts = []
+        # f'..{a}..{b:spec}..'  ==  '..{}..{:spec}..'.format(a, b): evaluated through the same (possibly
+        # abstract) str.format, so that template domains see f-strings and format templates alike
+        template, vals, abstract = [], [], False
         for v in e.values:
             if isinstance(v, ast.Constant):
-                parts.append(v.value)
-            else:
-                x = self.eval(v.value, frame)
-                if is_abstract(x):
-                    return Unknown('fstring')
-                parts.append(format(x))
-        return ''.join(parts)
+                template.append(str(v.value).replace('{', '{{').replace('}', '}}'))
+                continue
+            x = self.eval(v.value, frame)
+            spec = ''
+            if v.format_spec is not None:
+                spec = self.ex_JoinedStr(v.format_spec, frame)
+                if not isinstance(spec, str):
+                    return Unknown('fstring-spec')
+            if v.conversion != -1:
+                if is_abstract(x) or contains_abstract(x):
+                    return Unknown('fstring-conversion')
+                x = {115: str, 114: repr, 97: ascii}[v.conversion](x)
+            abstract = abstract or is_abstract(x) or contains_abstract(x)
+            vals.append(x)
+            template.append('{:%s}' % spec if spec else '{}')
+        template = ''.join(template)
+        if abstract:
+            hook = self.intrinsics.get('str.format')
+            if hook is None:
+                return Unknown('fstring')
+            return hook(self, [template] + vals, {})
+        try:
+            return template.format(*[x.name if isinstance(x, ClassInfo) else x for x in vals])
+        except Exception as ex:
+            raise Raised(ExcVal(type(ex).__name__, (str(ex),)))
 
     def ex_Lambda(self, e, frame):
         return LambdaVal(e, frame)
